@@ -215,7 +215,7 @@ func init() {
 	h.Register(&h.Prop{
 		ID: "C09", Level: "exploration",
 		Rule: fwWorkload + "with /localhost names mixed into a third of the traffic and routes (default route and /localhost routes towards non-local faces included); oracle: no recorded send on a non-local face carries a name starting with localhost (Interests, forwarded Data, cached Data, NextHopFaceId), a /localhost packet arriving on a non-local face causes no send and leaves PIT/CS/tree sizes unchanged, " +
-			"and local-to-local /localhost Interests with a local route are forwarded and answered; face life cycle (4 batches, on a running mini daemon): a non-local face is destroyed through faces/destroy, new local faces are created, the destroyed face's link service then delivers a /localhost Interest and a /localhost Data for a pending local Interest - neither may be accepted, and the new local faces' /localhost exchanges must work; then the forwarder's real UDP listener accepts per round a loopback peer and a peer on the host's non-loopback address whose first datagrams (/localhost Interests of equal length) are sent back to back - only the loopback peer's may reach the local producer; distinct = model decision classes reached with /localhost names",
+			"and local-to-local /localhost Interests with a local route are forwarded and answered; real transports (2 batches): UDP/TCP transports towards loopback and other addresses, TCP connections actually established, and WebSocket faces over a real upgrade whose reported peer address is substituted (IPv4, global IPv6, IPv6 link-local with a zone) must be classified local exactly for loopback peers and non-local otherwise; face life cycle (4 batches, on a running mini daemon): a non-local face is destroyed through faces/destroy, new local faces are created, the destroyed face's link service then delivers a /localhost Interest and a /localhost Data for a pending local Interest - neither may be accepted, and the new local faces' /localhost exchanges must work; then the forwarder's real UDP listener accepts per round a loopback peer and a peer on the host's non-loopback address whose first datagrams (/localhost Interests of equal length) are sent back to back - only the loopback peer's may reach the local producer; distinct = model decision classes reached with /localhost names",
 		Assumptions: []string{"names are parsed from the recorded bytes by the independent walker", "hooks: fw/fw/verif_hooks.go, fw/table/verif_hooks.go"},
 		Batches:     func(t bool) int { return 16 },
 		ChildTimeoutS: func(t bool) int {
@@ -228,6 +228,7 @@ func init() {
 			if c.Batch < 2 {
 				c09Transports(c)
 				c09ConnectedTCP(c)
+				c09WebSocket(c)
 			}
 			fwRunner("C09", 200, 1200)(c)
 			if c.Batch >= 2 && c.Batch < 6 {
